@@ -22,7 +22,7 @@ import (
 
 var c04Denoms = []string{"uinit", "ibc/27394FB092D2ECCD56123C74F36E4C1F926001CEADA9CA97EA622B25F41E5EB2", "Mixed/Case-denom.x_1", "a" + strings.Repeat("b", 127)}
 
-var c04Amounts = []string{"1", "2", "1000000", "4294967296", "9223372036854775807", "9223372036854775808", "18446744073709551615",
+var c04Amounts = []string{"0", "1", "2", "1000000", "4294967296", "9223372036854775807", "9223372036854775808", "18446744073709551615",
 	"18446744073709551616", "18446744073709551617", "340282366920938463463374607431768211456"}
 
 // c04World collects every withdrawal the L2 records (from the results of real messages).
@@ -189,6 +189,14 @@ func TestC04Rapid(t *testing.T) {
 		if rapid.IntRange(0, 9).Draw(rt, "bigtree") == 0 {
 			nOps = 100
 		}
+		if rapid.IntRange(0, 3).Draw(rt, "presetMetadata") == 0 {
+			// the L2 bank module already has display metadata for the bridged tokens (e.g. from its genesis)
+			for _, d := range c04Denoms {
+				l2d := tcL2Denom(tc, d)
+				tc.l2.BK.SetDenomMetaData(tc.l2.Ctx, banktypes.Metadata{Base: l2d, Display: l2d, Name: "preset", Symbol: "PRE", DenomUnits: []*banktypes.DenomUnit{{Denom: l2d, Exponent: 0}}})
+			}
+			c.Class("l2-bank-metadata-preset")
+		}
 		// one history in four is committed by an output that covers far more withdrawals than these
 		w.extraLevels = rapid.SampledFrom([]int{0, 0, 0, 0, 0, 0, 0, 0, 0, 3, 10, 13, 14, 15, 16, 17, 20, 29, 32, 40, 61, 64}).Draw(rt, "extraLevels")
 		repeatSteps(rt, nOps, func(i int) {
@@ -197,7 +205,21 @@ func TestC04Rapid(t *testing.T) {
 			if nOps > 12 {
 				amt = math.NewInt(int64(rapid.IntRange(1, 1000).Draw(rt, "small")))
 			}
-			switch drawWeighted(rt, "op", []weighted{{"deposit-withdraw", 6}, {"refund", 4}, {"withdraw-more", 2}, {"hook-withdraw", 3}}) {
+			switch drawWeighted(rt, "op", []weighted{{"deposit-withdraw", 6}, {"refund", 4}, {"withdraw-more", 2}, {"hook-withdraw", 3}, {"failing-hook", 3}}) {
+			case "failing-hook":
+				// a deposit (also of nothing: amount 0) that carries hook data which fails on L2: the deposit is
+				// credited and taken back, L2 records the refund - which must be claimable like any other
+				user := tc.users[rapid.IntRange(1, 4).Draw(rt, "fuser")]
+				data := rapid.SampledFrom([][]byte{{0xff, 0x01}, []byte("not a transaction"), {0x0a, 0x00}}).Draw(rt, "fdata")
+				acc, err := w.depositWithData(user.Str, sdk.Coin{Denom: denom, Amount: amt}, data)
+				if err != nil {
+					fail(err)
+				}
+				log = append(log, fmt.Sprintf("deposit %s%s to user with failing hook data %x: accepted by L1=%v", amt, truncStr(denom, 12), data, acc))
+				c.Class("deposit-with-failing-hook")
+				if amt.IsZero() {
+					c.Class("zero-amount-deposit-with-failing-hook")
+				}
 			case "hook-withdraw":
 				// the withdrawal is recorded by a deposit hook signed by the recipient, before or after another hook message
 				user := tc.users[rapid.IntRange(1, 4).Draw(rt, "huser")]
